@@ -61,7 +61,8 @@ CLAIMED = {
         "returncode is 1 without a process else the last stage's; parse_proxy_return decodes int / 3rd element / else 0; "
         "_boolop_contains_subproc sees helpers at any depth (loop invariant); CommandPipeline.__init__ leaves no process handle when a stage cannot be "
         "spawned (so the pipeline reports failure) and otherwise makes the last stage the pipeline's process; _SubprocChainRaiseWrapper._visit_boolop (the AST pass that inserts the "
-        "check) leaves its nesting flag as it found it on EVERY exit - normal, early return, exception - so a later chain of the same parse is still recognised as outermost. Enum (complete): the @error_raise/@error_ignore rows of the "
+        "check) leaves its nesting flag as it found it on EVERY exit - normal, early return, exception - so a later chain of the same parse is still recognised as outermost; _maybe_wrap_stmt_value gives a standalone bare-command / ![] statement the raise check exactly once (captured forms and "
+        "values the chain pass already wrapped are left alone). Enum (complete): the @error_raise/@error_ignore rows of the "
         "real alias table. Bounded stand-in (not counted as proved): the real AST wrapper + runtime decision executed on every chain shape "
         "of up to 4 (thorough: 5) commands against reference short-circuit semantics.",
    note="Unverified: that the parser produces BoolOps/helper calls for &&/|| and for text that is / is not valid Python; that a failing "
@@ -220,13 +221,15 @@ CLAIMED = {
         "readers.safe_fdclose: never closes descriptors 0-2 or the shell's own sys.std* streams, never closes a handle its cache records as closed (recycled numbers), closes at most the one handle "
         "given, swallows a failing close; CommandPipeline._safe_close never closes an integer descriptor (PipeChannel owns them); CommandPipeline._end: the two closing steps and `ended` sit in a finally - on EVERY exit "
         "of the drain (return, exception, KeyboardInterrupt) the last stage is closed once, the earlier ones unless the reader already did, and the pipeline is marked ended; end() ends once and returns the "
-        "terminal once, and does nothing for an ended pipeline. Bounded stand-in "
+        "terminal once, and does nothing for an ended pipeline; _close_proc releases each of the last stage's five spec handles and three process handles once, in order, closes every channel of both once (loop invariants), "
+        "and lets no exception escape (a failing wait is swallowed); _close_prev_procs lets NO exception escape either - an interrupted wait for an earlier stage (KeyboardInterrupt is a BaseException) "
+        "does not stop the closing of the remaining stages - and releases at least the three handles of every earlier stage. Bounded stand-in "
         "(not proved): 20 command shapes x 3 repetitions in a real headless session - descriptors, children, threads, cwd, std streams and the "
         "SIGINT handler before/after.",
    note="KNOWN FINDINGS (recorded, native check): `echo hi | nonexistent` leaves the started earlier stage's pipe ends and an unreaped child; an alias in a "
         "non-last stage leaves its SIGINT handler installed; `yes | cat | head -n 1` can leave an unreaped child (timing). Unverified: terminal "
         "ownership on a real tty, safe_fdclose's handle cache, proxies' _restore_sigint / _close_devnull, jobs.wait_for_active_job "
-        "reaping, _close_prev_procs / _close_proc bodies (ASSUMED not to raise in _end's contract), reader/closer thread schedules, Windows. ASSUMED: set-up "
+        "reaping, which channel ends _close_prev_procs closes in which order (only its no-exception clause and a handle count are verified), reader/closer thread schedules, Windows. ASSUMED: set-up "
         "statements of PopenThread.__init__ other than the spawn do not raise once handlers are installed. Trusted: pyvc engine + models + z3/cvc5.",
    design="§3 C09"),
  "C06": dict(
